@@ -474,6 +474,110 @@ def _drain(procs, results, timeout):
 
 
 # ---------------------------------------------------------------------------
+# crash-proof parallel map (a worker that segfaults or hangs is an observation, not the end of the check)
+# ---------------------------------------------------------------------------
+
+def _pmap_worker(conn, func, init):
+    try:
+        if init is not None:
+            init()
+        while True:
+            msg = conn.recv()
+            if msg is None:
+                break
+            idx, job = msg
+            try:
+                res = func(job)
+            except BaseException as e:      # noqa
+                import traceback
+                res = {"__crashed__": "exception in worker: %s: %s" % (type(e).__name__, str(e)[:300]),
+                       "tb": traceback.format_exc()[-1500:]}
+            conn.send((idx, res))
+    except (EOFError, KeyboardInterrupt):
+        pass
+
+
+def pmap(func, jobs, init=None, nproc=None, job_timeout=600):
+    """Parallel map over forked worker processes that survives worker death.
+    Returns a list aligned with `jobs`; a job whose worker died (segfault, abort) or exceeded
+    `job_timeout` seconds yields {"__crashed__": "<what happened>"} instead of a result."""
+    import multiprocessing as mp
+    from multiprocessing.connection import wait
+    ctxm = mp.get_context("fork")
+    nproc = max(1, min(nproc or (os.cpu_count() or 4), len(jobs) or 1))
+    results = [None] * len(jobs)
+    todo = list(range(len(jobs)))[::-1]
+    workers = {}     # conn -> [proc, current idx or None, start time]
+
+    def spawn():
+        a, b = ctxm.Pipe()
+        p = ctxm.Process(target=_pmap_worker, args=(b, func, init), daemon=True)
+        p.start()
+        b.close()
+        workers[a] = [p, None, 0.0]
+        return a
+
+    def feed(conn):
+        if todo:
+            i = todo.pop()
+            workers[conn][1] = i
+            workers[conn][2] = time.time()
+            try:
+                conn.send((i, jobs[i]))
+            except (BrokenPipeError, OSError):
+                pass
+        else:
+            workers[conn][1] = None
+            try:
+                conn.send(None)
+            except (BrokenPipeError, OSError):
+                pass
+
+    for _ in range(nproc):
+        feed(spawn())
+    done = 0
+    while done < len(jobs):
+        busy = [c for c, w in workers.items() if w[1] is not None]
+        if not busy:
+            break
+        ready = wait(busy, timeout=5)
+        now = time.time()
+        for c in ready:
+            w = workers[c]
+            try:
+                idx, res = c.recv()
+                results[idx] = res
+                done += 1
+                feed(c)
+            except (EOFError, OSError):
+                w[0].join(timeout=5)
+                results[w[1]] = {"__crashed__": "worker process died (exit code %s)" % w[0].exitcode}
+                done += 1
+                del workers[c]
+                c.close()
+                if todo:
+                    feed(spawn())
+        for c in [c for c, w in workers.items() if w[1] is not None and now - w[2] > job_timeout]:
+            w = workers.pop(c)
+            w[0].kill()
+            w[0].join(timeout=5)
+            results[w[1]] = {"__crashed__": "timeout after %ds (worker killed)" % job_timeout}
+            done += 1
+            c.close()
+            if todo:
+                feed(spawn())
+    for c, w in workers.items():
+        try:
+            c.send(None)
+        except Exception:      # noqa
+            pass
+        w[0].join(timeout=2)
+        if w[0].is_alive():
+            w[0].kill()
+    return results
+
+
+# ---------------------------------------------------------------------------
 # known findings
 # ---------------------------------------------------------------------------
 
